@@ -169,6 +169,35 @@ CHECKS["C12"] = {
     "technique": TECH + "dominating Err guards, counter-capped loop shape + call-graph termination, term/update pairing patterns",
 }
 
+CHECKS["C14"] = {
+    "text": "ONLY the compositional skeleton: sin, cos, sinh, cosh, exp, polar equal their closed forms in real functions of (x, y) (modulo commutativity and sign placement); "
+            "tan, tanh, log_b are the right quotients; the six reciprocal functions are one / partner(self); the six inverse-reciprocal functions are partner_inverse(one / self); "
+            "ln = (ln|z|, arg z), sqrt = sqrt|z|(cos(arg/2), sin(arg/2)), arg = atan2(imag, real) (principal branches inherited from atan2); pow/powf are the expansion of exp(w ln z).",
+    "design_ref": "DESIGN.md §3 C14, §7",
+    "note": "Most of C14 — agreement with the defining series, right-inverse identities, branch ranges of asin/acos/atan and their hyperbolic twins on both sides of each cut, "
+            "behaviour near branch points — is about values of transcendental expressions and is NOT decided (not applicable to static analysis); no claim is made for it.",
+    "technique": TECH + "value numbering of single-path bodies compared with the defining closed forms modulo commutativity and sign placement (compositional skeleton only)",
+}
+CHECKS["C15"] = {
+    "text": "For all lengths: the 12 element-wise operator impls have the trait's operator, operand order, co-indexing, full 0..size range and result length; consuming forms "
+            "forward in operand order; every editing method is a single forwarding call to the std Vec method that defines it (so the vector is its Vec under any history); dot, "
+            "sum/product slices (guards, ranges tiling [start,end]), abs, norm_1/2/p, both norm_inf (arg-max over magnitudes from |v_0|), find (first match, else size-1), "
+            "assign/conj/real and linspace/powspace have their definitional form.",
+    "design_ref": "DESIGN.md §3 C15",
+    "note": "Norm axioms, monotonicity/end-point accuracy of generated sequences and exactness on representable data are not decided statically. Empty-vector reductions panic loudly and are not reported.",
+    "technique": TECH + "polarity/co-index/full-range templates, forwarding-call delegation to std, reduction and arg-max patterns",
+}
+CHECKS["C19"] = {
+    "text": "For all grids: every access to Mesh2D::vars is a*ny + b with a < nx and b < ny proved from loop ranges or accessor guards; the checked accessors reject out-of-range "
+            "nodes and wrong variable counts first; constructors allocate one nvars-vector per node (row-major for 2-D); set stores the argument in the mapped slot and get returns "
+            "a clone of the same slot; cross-sections use the right axis, argument positions and full range; var_as_matrix is nx x ny with the flat map; 1-D/2-D trapezium use the "
+            "two end points / four distinct corners of each cell with the right spacings and weight; interpolation is the linear formula on the bracketed cell; the writer's record "
+            "(coordinate + nvars values) matches the reader's stride and field order.",
+    "design_ref": "DESIGN.md §3 C19",
+    "note": "Exactness of quadrature/interpolation on (bi)linear data, the printed-precision round trip and the 1e-7 snapping window are numerical and not decided statically. Raw Mesh2D (i,j) indexing is outside the claim.",
+    "technique": TECH + "flat-index map discovery + single-fact bounds proofs, accessor guards, corner-set / stride-agreement patterns",
+}
+
 NOT_APPLICABLE = {
 }
 for _i in range(1, 21):
